@@ -32,7 +32,7 @@ NOT_DECIDED = ["equality of coordinates within the format's precision (numerical
                "value ranges against field widths (overflow)", "gro time regex vs the %s spelling of floats"]
 ASSUMPTIONS = ["in_units_of(q, a, b) converts from a to b and is the only unit conversion used at the file boundary",
                "the format specifications fix: xtc/trr/gro/h5/lh5 nm; dcd/netcdf/rst7/ncrst/mdcrd/xyz/lammpstrj(real)/pdb/dtr/arc angstrom"]
-FLOORS = {"C01-R1": 50, "C01-R2": 60, "C01-R3": 20, "C01-R4": 25, "C01-R5": 25, "C01-R6": 8, "C01-R7": 6}
+FLOORS = {"C01-R8": 27, "C01-R1": 50, "C01-R2": 60, "C01-R3": 20, "C01-R4": 25, "C01-R5": 25, "C01-R6": 8, "C01-R7": 6}
 
 TRAJ = "mdtraj/core/trajectory.py"
 WRITABLE = [".h5", ".xtc", ".trr", ".dcd", ".nc", ".netcdf", ".ncdf", ".mdcrd", ".crd", ".xyz", ".xyz.gz", ".lammpstrj", ".gro",
@@ -86,7 +86,9 @@ def check(ctx):
     r7_time_text(ctx)
     r4_overflow(ctx)
     r4_box_lookahead(ctx)
+    r8_text_round_trip(ctx)
     r2_fields_unconditional(ctx)
+    ctx.rule("C01-R8", "text formats (xyz, mdcrd, lammpstrj, gro): write() and read() of the file class both evaluated - what is read back from the text written is what went in (coordinates, cell, time), laid out as the format tables say")
     ctx.rule("C01-R6", "in `for i in range(self.n_frames)` loops of savers every per-frame argument of f.write is subscripted by the loop variable")
     reg = F.registry(ctx)
     savers = _savers(ctx)
@@ -782,3 +784,129 @@ def _gro_reader_matrix(r):
         if len(vs) == 1 and e == Rat(Poly.var(list(vs)[0])) and str(list(vs)[0]).startswith("tok"):
             M[(k_ // 3, k_ % 3)] = int(str(list(vs)[0])[3:])
     return M
+
+
+# ---------------------------------------------------------------------------------------------------
+# R8: the text formats round-trip by evaluation of writer and reader
+# ---------------------------------------------------------------------------------------------------
+def r8_text_round_trip(ctx):
+    """write() of xyz / mdcrd / lammpstrj / gro is evaluated on symbolic frames with the file handle a recorder (sa/writers.py); read() of the same
+    class is then evaluated on a model file holding exactly those pieces of text (sa/ttext.py: columns, tokens, decimal points follow from the format
+    specs).  Decided by value: the coordinates, cell and time that come back are the ones that went in; the number of frames and atoms; the field
+    widths / decimals of the published format tables (taken from the pieces written, not from the spelling of the writer)."""
+    from .. import writers as W, textio as T
+    from ..tensym import Raised, Ten, FVal
+    from ..ttext import spec_of
+    from ..pysym import Unsupported as PUnsupported
+    NF = 2
+
+    def same(a, b):
+        return T.same_value(a, b)
+
+    def coord_fields(pieces, world):
+        """the formatted pieces whose value is a coordinate symbol"""
+        xs = {repr(v) for v in world.x.data}
+        return [p for p in pieces if isinstance(p, FVal) and repr(p.value) in xs]
+    variants = {"xyz": [dict(cell=False, time=False)], "mdcrd": [dict(cell=True, time=False), dict(cell=False, time=False)],
+                "lammpstrj": [dict(cell=True, ortho=True, time=False), dict(cell=True, time=False)],
+                "gro": [dict(cell=True, time=True), dict(cell=False, time=False), dict(cell=True, time=False)]}
+    for key in ("xyz", "mdcrd", "lammpstrj", "gro"):
+        rel, cls = F.rel_cls(key)
+        wfn = F.method(ctx, key, "write")
+        q = cls + ".write / .read"
+        for var in variants[key]:
+            vdesc = ", ".join("%s=%s" % kv for kv in sorted(var.items()))
+            root = W.new_root()
+            world = W.World(NF, **var)
+            try:
+                pieces = W.written(ctx, key, world, [(0, NF)], root)
+                got, me = W.read_back(ctx, key, pieces, root)
+            except Raised as e:
+                ctx.violated("C01-R8", wfn, rel, q, "%d frames written and read back (%s)" % (NF, vdesc), "what the writer produces is refused: %s" % (e.exc or e))
+                continue
+            except PUnsupported as e:
+                ctx.undecided("C01-R8", wfn, rel, q, "%d frames written and read back (%s)" % (NF, vdesc), "not evaluable: %s" % e)
+                continue
+            res = list(got) if isinstance(got, tuple) else [got]
+            xyz = res[0]
+            ok = isinstance(xyz, Ten) and xyz.shape == world.x.shape and all(same(a, b) for a, b in zip(xyz.data, world.x.data))
+            bad = None
+            if not ok and isinstance(xyz, Ten) and xyz.shape == world.x.shape:
+                k_ = next(i for i, (a, b) in enumerate(zip(xyz.data, world.x.data)) if not same(a, b))
+                bad = "element %d reads back as %s, written from %s" % (k_, repr(xyz.data[k_])[:80], repr(world.x.data[k_]))
+            ctx.decide(ok, "C01-R8", wfn, rel, q, "coordinates of %d frames x %d atoms come back as written (%s)" % (NF, W.N_ATOMS, vdesc), "",
+                       bad or "read() returns coordinates of shape %s for %s written" % (getattr(xyz, "shape", None), world.x.shape))
+            # ---- cell / time
+            if key == "mdcrd":
+                L = res[1]
+                if var["cell"]:
+                    okc = isinstance(L, Ten) and L.shape == world.L.shape and all(same(a, b) for a, b in zip(L.data, world.L.data))
+                else:
+                    okc = L is None
+                ctx.decide(okc, "C01-R8", wfn, rel, q, "cell lengths come back as written (%s)" % vdesc, "", "read() returns cell lengths %s" % (repr(L)[:80],))
+            if key == "gro":
+                tm, B = res[1], res[2]
+                if var["cell"]:
+                    okc = isinstance(B, Ten) and B.shape == world.B.shape and all(same(a, b) for a, b in zip(B.data, world.B.data))
+                    why = "the cell vectors read back differ from the ones written" if isinstance(B, Ten) and B.shape == world.B.shape else "read() returns cell vectors of shape %s" % (getattr(B, "shape", None),)
+                    if not okc and isinstance(B, Ten) and B.shape == world.B.shape:
+                        k_ = next(i for i, (a, b) in enumerate(zip(B.data, world.B.data)) if not same(a, b))
+                        why = "cell vector element %s of frame %d reads back as %s" % (((k_ % 9) // 3, k_ % 3), k_ // 9, repr(B.data[k_])[:60])
+                else:
+                    okc = isinstance(B, Ten) and all(x_.const_value() == 0 for x_ in B.data)
+                    why = "a trajectory without a cell reads back with cell vectors %s" % (repr(B)[:60],)
+                ctx.decide(okc, "C01-R8", wfn, rel, q, "cell vectors come back as written (%s)" % vdesc, "", why)
+                if var["time"]:
+                    okt = isinstance(tm, Ten) and tm.shape == world.t.shape and all(same(a, b) for a, b in zip(tm.data, world.t.data))
+                else:
+                    okt = tm is None
+                ctx.decide(okt, "C01-R8", wfn, rel, q, "time stamps come back as written (%s)" % vdesc, "", "read() returns time %s" % (repr(tm)[:80],))
+            if key == "lammpstrj":
+                L, A = res[1], res[2]
+                if var.get("ortho"):
+                    okc = isinstance(L, Ten) and L.shape == world.L.shape and all(same(a, b) for a, b in zip(L.data, world.L.data)) and \
+                        isinstance(A, Ten) and all(x_.const_value() == 90 for x_ in A.data)
+                    ctx.decide(okc, "C01-R8", wfn, rel, q, "rectangular cell: lengths come back as written, angles 90 (%s)" % vdesc, "",
+                               "read() returns lengths %s and angles %s" % (repr(L.data[:3])[:80] if isinstance(L, Ten) else L, repr(A.data[:3])[:40] if isinstance(A, Ten) else A))
+                else:
+                    oka = isinstance(L, Ten) and L.shape == world.L.shape and all(same(L.data[3 * f_], world.L.data[3 * f_]) for f_ in range(NF))
+                    ctx.decide(oka, "C01-R8", wfn, rel, q, "skewed cell: edge a comes back as written (b, c and the angles: C17-R5 / C01-R7) (%s)" % vdesc, "",
+                               "read() returns a = %s" % (repr(L.data[0])[:80] if isinstance(L, Ten) and L.data else L))
+            # ---- the published layout, from the pieces written
+            cf = coord_fields(pieces, world)
+            specs = {p.spec for p in cf}
+            if key in ("xyz", "lammpstrj"):
+                sp = [spec_of(p) for p in cf]
+                okp = len(cf) == world.x.shape[0] * world.x.shape[1] * 3 and all(s_ and s_["type"] in ("f", "F") and (s_["prec"] or 0) >= 3 for s_ in sp)
+                ctx.decide(okp, "C01-R8", wfn, rel, q, "every coordinate is written once, with at least 3 decimals (%s)" % vdesc, "%s" % sorted(specs),
+                           "%d coordinate fields are written (%d expected), with formats %s" % (len(cf), len(world.x.data), sorted(specs)))
+            if key == "mdcrd":
+                ls, tail = T.lines(pieces)
+                per_line = [sum(1 for p in l_ if p in cf) for l_ in ls]
+                per_line = [c_ for c_ in per_line if c_]
+                want = ([10] * (3 * W.N_ATOMS // 10) + ([3 * W.N_ATOMS % 10] if 3 * W.N_ATOMS % 10 else [])) * NF
+                ctx.decide(specs == {"8.3f"} and per_line == want, "C01-R8", wfn, rel, q, "coordinates as 10F8.3 (%s)" % vdesc, "",
+                           "coordinates are written with %s, %s per line (AMBER: 10F8.3)" % (sorted(specs), per_line[:4]))
+        if key == "gro":
+            for prec in (3, 5):
+                try:
+                    root = W.new_root()
+                    world = W.World(1, cell=True, time=False)
+                    pieces = W.written(ctx, key, world, [(0, 1)], root, extra_args=dict(precision=prec))
+                    got, me = W.read_back(ctx, key, pieces, root)
+                except Raised as e:
+                    ctx.violated("C01-R8", wfn, rel, q, "precision=%d: written and read back" % prec, "refused: %s" % (e.exc or e))
+                    continue
+                except PUnsupported as e:
+                    ctx.undecided("C01-R8", wfn, rel, q, "precision=%d: written and read back" % prec, "not evaluable: %s" % e)
+                    continue
+                ls, tail = T.lines(pieces)
+                atom_lines = [l_ for l_ in ls if any(p in coord_fields(pieces, world) for p in l_ if isinstance(p, FVal))]
+                lay = [[p.spec for p in l_ if isinstance(p, FVal)] for l_ in atom_lines]
+                want = ["5d", "-5s", "5s", "5d"] + ["%d.%df" % (prec + 5, prec)] * 3
+                okl = len(atom_lines) == W.N_ATOMS and all(l_ == want for l_ in lay) and all(all(isinstance(p, FVal) for p in l_) for l_ in atom_lines)
+                ctx.decide(okl, "C01-R8", wfn, rel, q, "precision=%d: atom line %%5d%%-5s%%5s%%5d + 3 x %%%d.%df" % (prec, prec + 5, prec), "",
+                           "atom lines are laid out as %s" % (lay[0] if lay else None,))
+                xyz = got[0]
+                ok = isinstance(xyz, Ten) and xyz.shape == world.x.shape and all(same(a, b) for a, b in zip(xyz.data, world.x.data))
+                ctx.decide(ok, "C01-R8", wfn, rel, q, "precision=%d: coordinates come back as written" % prec, "", "the reader does not recover the coordinates written with precision %d" % prec)
